@@ -3,6 +3,9 @@
   Property theorems only; helper lemmas in Lemmas/Unknown.lean.
 -/
 import IpfixModel.Lemmas.Unknown
+import IpfixModel.Lemmas.UnknownSpec
+import IpfixModel.Props.C15
+import IpfixModel.Lemmas.Store4
 import IpfixModel.Model.Registry
 namespace Ipfix.C17
 open Outcome C03
@@ -95,6 +98,69 @@ theorem known_fields_independent {tpl : Template} {b r : Bytes} {vs : List Value
   obtain ⟨ss, ps, hrec, hb, hdp⟩ := decodeRecord_sound h
   exact ⟨ss, ps, hrec, hb, decodeRecord_complete r (isRecord_strip hrec) (decodePayloads_strip hrec hdp)⟩
 
+/-! ## Template level: what each mode makes of a template that interleaves known and unknown elements -/
+
+/-- strict mode rejects the template AND the data that follows: a template record (as the exporter
+    lays it out) with at least one element the registry lacks - at any position, IANA or enterprise -
+    is refused, whatever was stored for (domain, id) is erased, and a data set for that id is then
+    refused too, whatever its bytes -/
+theorem strict_rejects_template_and_data (lookup : Nat → Nat → Option IE) (c : CState) (dom tid : Nat) (ies : List IE)
+    (hs : ∀ ie ∈ ies, C02.SpecOK ie) (hunk : ∃ ie ∈ ies, lookup ie.ent ie.id = none)
+    (htid : tid < 65536) (hn : ies.length < 65536) :
+    decodeTemplateSet lookup .strict c dom (templateRecordBytes tid ies) = (c.erase (dom, tid), .err) ∧
+    ∀ mode body, decodeDataSet mode (c.erase (dom, tid)) dom tid body = .err := by
+  constructor
+  · unfold templateRecordBytes
+    rw [be_two, be_two]
+    simp only [List.cons_append, List.nil_append, decodeTemplateSet, C02.u8_mod, C02.hi_lo tid htid, C02.hi_lo ies.length hn]
+    have := decodeSpecifiers_strict_unknown lookup ies hs hunk []
+    simp only [List.append_nil] at this
+    rw [this]
+  · intro mode body
+    unfold decodeDataSet
+    rw [CState.lookup_erase_same]
+
+/-- keep and drop mode accept such a template when every element is either registered as described
+    or unknown with a non-zero length, and hold it with the known elements as registered and each
+    unknown element as a nameless octet array carrying the id, enterprise number and length that
+    were on the wire, in the same positions -/
+theorem lenient_accepts_template (lookup : Nat → Nat → Option IE) (mode : Mode) (hm : mode ≠ .strict) (c : CState)
+    (dom tid : Nat) (ies : List IE) (h : ∀ ie ∈ ies, Lenient lookup ie) (htid : tid < 65536) (hn : ies.length < 65536) :
+    decodeTemplateSet lookup mode c dom (templateRecordBytes tid ies) =
+      (c.insert (dom, tid) (ies.map (asDelivered lookup)), .ok (.template tid (ies.map (asDelivered lookup)))) := by
+  unfold templateRecordBytes
+  rw [be_two, be_two]
+  simp only [List.cons_append, List.nil_append, decodeTemplateSet, C02.u8_mod, C02.hi_lo tid htid, C02.hi_lo ies.length hn]
+  have := decodeSpecifiers_lenient lookup mode hm ies h []
+  simp only [List.append_nil] at this
+  rw [this]
+
+/-- the stand-in for an unknown element is recognisably unknown, has the wire's id / enterprise /
+    length, and occupies exactly the same bytes of a record as the real element would -/
+theorem unknown_stand_in (lookup : Nat → Nat → Option IE) (ie : IE) (h : lookup ie.ent ie.id = none) :
+    asDelivered lookup ie = unknownIE ie ∧ IE.known (unknownIE ie) = false ∧ (unknownIE ie).ty = .octetArray ∧
+    (unknownIE ie).id = ie.id ∧ (unknownIE ie).ent = ie.ent ∧ (unknownIE ie).len = ie.len ∧
+    ∀ s p, IsField (unknownIE ie) s p ↔ IsField ie s p := by
+  refine ⟨by simp [asDelivered, h], by simp [unknownIE, IE.known], rfl, rfl, rfl, rfl, ?_⟩
+  intro s p
+  exact Iff.rfl
+
+/-- keep mode, from the exporter's hands: a field the exporter encoded for an element the collector
+    does not know is delivered as an octet array holding exactly the payload `p` the exporter wrote
+    (the whole encoding of a fixed-length element, the encoding minus its 1- or 3-byte length prefix
+    of a variable-length one) - the very bytes from which a collector that knew the element would
+    have produced the original value - and the bytes after the field are untouched -/
+theorem keep_delivers_payload {ie : IE} {v : Value} {bs : Bytes} (hwf : ie.WF) (h : encodeElem ie v = some bs) (r : Bytes) :
+    ∃ p, IsField ie bs p ∧ decodeElem ie p = .ok (C15.canon ie v) ∧
+      decodeField (unknownIE ie) (bs ++ r) = .ok (.bytes p, r) := by
+  obtain ⟨s, p, hf, hb, hd⟩ := decodeField_sound (C15.decode_encode r hwf h)
+  have hs : bs = s := List.append_cancel_right hb
+  subst hs
+  refine ⟨p, hf, hd, ?_⟩
+  apply decodeField_complete
+  · exact hf
+  · simp [decodeElem, unknownIE]
+
 /-! ## Non-vacuity -/
 
 def tplMixed : Template :=
@@ -104,5 +170,17 @@ def tplMixed : Template :=
 example : decodeRecord .keep tplMixed [6, 2, 0xAA, 0xBB, 0x1F, 0x90] = .ok ([.num 6, .bytes [0xAA, 0xBB], .num 8080], []) ∧
     decodeRecord .drop tplMixed [6, 2, 0xAA, 0xBB, 0x1F, 0x90] = .ok ([.num 6, .num 8080], []) ∧
     decodeRecord .keep (tplMixed.filter IE.known) [6, 0x1F, 0x90] = .ok ([.num 6, .num 8080], []) := by decide
+
+/-- a template as an exporter with a user-registered element 20000 would describe it; the shipped
+    registry does not know (0, 20000): the hypotheses of the template-level theorems are met -/
+def tplExp : List IE :=
+  [⟨"protocolIdentifier", 4, .unsigned8, 0, 1⟩, ⟨"myElement", 20000, .string, 0, 65535⟩,
+   ⟨"sourceTransportPort", 7, .unsigned16, 0, 2⟩]
+example : (∃ ie ∈ tplExp, lookupIE ie.ent ie.id = none) ∧ (∀ ie ∈ tplExp, C02.SpecOK ie) := by
+  refine ⟨⟨tplExp[1], by simp [tplExp], by decide +kernel⟩, ?_⟩
+  intro ie h; simp [tplExp] at h; rcases h with rfl | rfl | rfl <;> simp [C02.SpecOK]
+example : (decodeTemplateSet lookupIE .strict {} 7 (templateRecordBytes 256 tplExp)).2 = .err ∧
+    (decodeTemplateSet lookupIE .keep {} 7 (templateRecordBytes 256 tplExp)).2 = .ok (.template 256 tplMixed) ∧
+    tplExp.map (asDelivered lookupIE) = tplMixed := by decide +kernel
 
 end Ipfix.C17
